@@ -14,6 +14,6 @@ open Unifex.Core Unifex.Proto.AsyncPass
     cancelled ⇒ arguments untouched, `cancel_leaves_other_waiting` (no deadlock, everybody
     completes exactly once). -/
 theorem pass_cancel_accept_safe_inst : ∀ s, Reach (sys cfgCancelAccept) s → (safe cfgCancelAccept s && faithful s) = true :=
-  safe_of_checkC _ { coded with M := 1597, W := 192 } 400 _ (by decide +kernel)
+  safe_of_checkC _ { coded with M := 1657, W := 192 } 400 _ (by decide +kernel)
 
 end Unifex.Props.C16
